@@ -41,6 +41,9 @@ func (e *CompilerError) Error() string {
 	return fmt.Sprintf("Compile Error: %s\n\tat %s", e.Err.Error(), filePos)
 }
 
+// maxNestLev is the deepest syntax tree the compiler accepts.
+const maxNestLev = 10000
+
 // Compiler compiles the AST into a bytecode.
 type Compiler struct {
 	file            *parser.SourceFile
@@ -59,6 +62,7 @@ type Compiler struct {
 	loopIndex       int
 	trace           io.Writer
 	indent          int
+	nestLev         int // current depth of Compile calls
 }
 
 // NewCompiler creates a Compiler.
@@ -116,6 +120,14 @@ func (c *Compiler) Compile(node parser.Node) (err error) {
 			err = ce
 		}
 	}()
+
+	// the compiler recurses on the syntax tree; a tree of unbounded depth
+	// (e.g. a few megabytes of "1 + 1 + 1 ...") would overflow the Go stack
+	c.nestLev++
+	defer func() { c.nestLev-- }()
+	if c.nestLev > maxNestLev {
+		return c.errorf(node, "exceeded max nesting depth")
+	}
 
 	if c.trace != nil {
 		if node != nil {
